@@ -102,8 +102,14 @@ def pres_term(obs: Optional[Dict[str, Any]], conv) -> str:
     return f"(PRaise {EXN.get(obs.get('exc', ''), 'PyOtherError')})"
 
 
+def printable(txt: Any) -> bool:
+    return isinstance(txt, str) and all(32 <= ord(c) < 127 for c in txt)
+
+
 def ostr_term(obs: Optional[Dict[str, Any]]) -> str:
-    if obs is None or "ok" not in obs:
+    """Observed C text as `option string`; a text with NUL / stale / non-ASCII bytes is no JSON
+    text at all: None (never equal to a model or specified text), reported by the direct check."""
+    if obs is None or "ok" not in obs or not printable(obs["ok"]):
         return "None"
     return f"(Some {coq_string(obs['ok'])})"
 
@@ -274,6 +280,158 @@ def known_class_stream(rng) -> List[Tuple[sg.Schema, List[Any], str]]:
     return cases
 
 
+# ---- round 2: long identifiers and zero-bit wrappers ---------------------------------------------
+
+NAME_LENGTHS = [39, 40, 43, 44, 45, 46, 47, 48, 49, 60, 63, 64, 65, 80]
+_WORDS = ["measurement", "channel", "propeller", "rotation", "speed", "battery", "voltage", "navigation",
+          "estimate", "reserved", "calibration", "offset", "threshold", "window", "counter", "status"]
+
+
+def long_snake(rng, length: int, tag: str) -> str:
+    """A snake_case identifier of exactly `length` characters, made unique by `tag` (letters)."""
+    out = tag
+    while len(out) < length:
+        out += "_" + rng.choice(_WORDS)
+    out = out[:length]
+    if out.endswith("_"):
+        out = out[:-1] + "x"
+    return out.replace("__", "_x")
+
+
+def long_pascal(rng, length: int, tag: str) -> str:
+    out = tag
+    while len(out) < length:
+        out += rng.choice(_WORDS).capitalize()
+    return out[:length]
+
+
+def shape_stream(rng) -> List[Tuple[sg.Schema, List[Any], str]]:
+    """Boundary catalogue of SHAPES rather than of values:
+    (a) identifiers of 39..80 characters (field names at every listed length, in the top-level
+        message, in a nested message and in an array element; long message / enum / alias /
+        enum-member names);
+    (b) zero-bit wrappers: messages that occupy no bit on the wire but do have fields (empty
+        messages, arrays of them, messages made of those) at depth 2..4, as a field, as an array
+        element, behind an alias, as the top-level message, non-extensible and extensible;
+    (c) arrays of arrays of messages (through aliases)."""
+    cases = []
+
+    def add(s: sg.Schema, modes, tag: str):
+        cases.append((s, [sg.gen_value(s.top, rng, m) for m in modes], f"shapes:{tag}"))
+
+    # (a) long identifiers
+    kinds = [lambda: sg.T("uint", n=rng.choice([1, 7, 33, 64])), lambda: sg.T("int", n=rng.choice([2, 13, 64])),
+             lambda: sg.T("bool"), lambda: sg.T("byte")]
+    en = sg.T("enum", n=9, name=long_pascal(rng, 70, "Mode"))
+    en.members = [(long_snake(rng, 50, "mode_a").upper(), 0), (long_snake(rng, 64, "mode_b").upper(), 300)]
+    inner = sg.T("msg", name=long_pascal(rng, 66, "Inner"))
+    inner.fields = [(k + 1, long_snake(rng, L, "n" + sg._letters(k)), kinds[k % 4]())
+                    for k, L in enumerate(NAME_LENGTHS[2::2])]
+    al = sg.T("alias", name=long_pascal(rng, 58, "Samples"), t=sg.T("arr", cap=2, t=sg.T("int", n=17)))
+    top = sg.T("msg", name=long_pascal(rng, 61, "Telemetry"))
+    nums = list(range(1, len(NAME_LENGTHS) + 6))
+    rng.shuffle(nums)
+    top.fields = [(nums[k], long_snake(rng, L, "f" + sg._letters(k)), kinds[k % 4]())
+                  for k, L in enumerate(NAME_LENGTHS)]
+    k0 = len(NAME_LENGTHS)
+    top.fields += [(nums[k0], long_snake(rng, 47, "e"), en), (nums[k0 + 1], long_snake(rng, 52, "inn"), inner),
+                   (nums[k0 + 2], long_snake(rng, 45, "arr"), sg.T("arr", cap=2, t=inner)),
+                   (nums[k0 + 3], long_snake(rng, 71, "al"), al),
+                   (nums[k0 + 4], long_snake(rng, 44, "ext"), sg.T("arr", cap=2, ext=True, t=en))]
+    add(simple_schema("longnames", [en, inner, al], top), ["random", "max", "min"], "long-identifiers")
+
+    # (b) zero-bit wrappers
+    def msg(name, fields, ext=False):
+        m = sg.T("msg", name=name, ext=ext)
+        m.fields = fields
+        return m
+    e0 = msg("Nothing", [])
+    ex = msg("NothingExt", [], ext=True)
+    w1 = msg("Slot", [(1, "reserved", e0)])
+    w1a = msg("Spares", [(3, "spare", sg.T("arr", cap=2, t=e0))])
+    w2 = msg("Rack", [(2, "spare", sg.T("arr", cap=2, t=e0)), (1, "slot", w1)])
+    w3 = msg("Cabinet", [(7, "rack", w2), (4, "racks", sg.T("arr", cap=2, t=w2))])
+    wx = msg("SlotExt", [(1, "reserved", e0)], ext=True)
+    wm = msg("Holder", [(1, "e", ex), (2, "inner", w1)])
+    leaf = msg("Leaf", [(1, "v", sg.T("int", n=11)), (2, "pad", e0), (3, "slot", w1)])
+    slots = sg.T("alias", name="Slots", t=sg.T("arr", cap=2, t=w1))
+    defs = [e0, ex, w1, w1a, w2, w3, wx, wm, leaf, slots]
+    for ext in (False, True):
+        top = msg("Board" + ("Ext" if ext else ""), [
+            (3, "a", sg.T("uint", n=3)), (1, "slot", w1), (2, "rack", w2), (9, "e", e0),
+            (4, "slots", sg.T("arr", cap=2, t=w1)), (5, "sp", w1a), (6, "leaf", leaf), (7, "deep", w3),
+            (8, "xs", wx), (10, "m", wm), (11, "al", slots), (12, "grid", sg.T("arr", cap=2, t=slots)),
+            (13, "xarr", sg.T("arr", cap=2, ext=True, t=w2)), (14, "z", sg.T("uint", n=9))], ext=ext)
+        add(simple_schema("zboard" + ("x" if ext else ""), defs, top), ["random", "max"],
+            "zero-bit-wrappers-as-fields" + ("-ext" if ext else ""))
+    # the top-level message itself occupies zero bits / only its 16-bit prefix
+    for ext in (False, True):
+        top = msg("Void" + ("Ext" if ext else ""),
+                  [(2, "slot", w1), (1, "racks", sg.T("arr", cap=2, t=w2)), (3, "e", e0), (5, "deep", w3)], ext=ext)
+        add(simple_schema("zvoid" + ("x" if ext else ""), [e0, w1, w2, w3], top), ["zero"],
+            "zero-bit-top-level" + ("-ext" if ext else ""))
+
+    # (c) arrays of arrays of messages
+    kind = sg.T("enum", n=2, name="Kind")
+    kind.members = [("KIND_NONE", 0), ("KIND_WALL", 1), ("KIND_DOOR", 3)]
+    cell = msg("Cell", [(1, "kind", kind), (2, "height", sg.T("int", n=6)), (3, "tag", sg.T("arr", cap=2, t=sg.T("byte")))])
+    row = sg.T("alias", name="Row", t=sg.T("arr", cap=2, t=cell))
+    plane = sg.T("alias", name="Plane", t=sg.T("arr", cap=2, t=row))
+    top = msg("Grid", [(2, "grid", sg.T("arr", cap=3, t=row)), (1, "row", row), (3, "cube", sg.T("arr", cap=2, t=plane)),
+                       (4, "cells", sg.T("arr", cap=2, ext=True, t=cell))])
+    add(simple_schema("grids", [kind, cell, row, plane], top), ["random", "min"], "arrays-of-arrays-of-messages")
+    return cases
+
+
+def decorate(g: "sg.Gen", s: sg.Schema, rng, how: str) -> None:
+    """Put the round-2 shape classes into a GENERATED schema (then re-render its files):
+    'long'  — about half of all field names and some type names become 40..80 characters long;
+    'zero'  — zero-bit wrappers (depth 2..3) become fields / array elements of the top message."""
+    if how == "long":
+        cnt = [0]
+        seen_t = set()
+
+        def visit(t: sg.T):
+            if id(t) in seen_t:
+                return
+            seen_t.add(id(t))
+            if t.kind in ("alias", "arr"):
+                visit(t.t)
+            if t.kind in ("msg", "enum", "alias") and t.name and rng.random() < 0.3:
+                cnt[0] += 1
+                t.name = long_pascal(rng, rng.randint(40, 80), t.name + "Q" + sg._letters(cnt[0]).capitalize())
+            if t.kind == "msg":
+                new = []
+                for n, nm, ft in t.fields:
+                    visit(ft)
+                    if rng.random() < 0.5:
+                        cnt[0] += 1
+                        nm = long_snake(rng, rng.choice(NAME_LENGTHS + [rng.randint(40, 80)]), nm)
+                    new.append((n, nm, ft))
+                t.fields = new
+        visit(s.top)
+    elif how == "zero":
+        def msg(name, fields, ext=False):
+            m = sg.T("msg", name=name, ext=ext, file=0)
+            m.fields = fields
+            return m
+        e0 = msg("Zwnothing", [])
+        w1 = msg("Zwslot", [(rng.randint(1, 200), "reserved", e0)], ext=rng.random() < 0.2)
+        w2 = msg("Zwrack", [(2, "spare", sg.T("arr", cap=rng.randint(1, 3), t=e0)), (1, "slot", w1)])
+        for d in (w2, w1, e0):
+            s.files[0].defs.insert(0, d)
+            g.named.append(d)
+        used = {n for n, _, _ in s.top.fields}
+        free = [n for n in range(1, 256) if n not in used]
+        rng.shuffle(free)
+        extra = [(free[0], "zw_slot", w1), (free[1], "zw_rack", w2),
+                 (free[2], "zw_slots", sg.T("arr", cap=2, ext=rng.random() < 0.3, t=w1)),
+                 (free[3], "zw_racks", sg.T("arr", cap=2, t=w2))]
+        for f in extra:
+            s.top.fields.insert(rng.randint(0, len(s.top.fields)), f)
+    s.texts = sg.render_files(g, s)
+
+
 def default_params(i: int, rng) -> sg.Params:
     r = i % 10
     if r == 0:
@@ -291,9 +449,17 @@ def gen_cases(ck: Check, n_schemas: int, n_values: int) -> List[Tuple[sg.Schema,
     cases = []
     for i in range(n_schemas):
         rng = random.Random(f"{ck.prop}:{ck.seed}:{i}")
-        s = sg.Gen(rng, default_params(i, rng)).schema()
+        g = sg.Gen(rng, default_params(i, rng))
+        s = g.schema()
+        tag = ""
+        if i % 5 == 4:
+            decorate(g, s, rng, "long")
+            tag = "+long-names"
+        elif i % 5 == 2:
+            decorate(g, s, rng, "zero")
+            tag = "+zero-bit-wrappers"
         vals = [sg.gen_value(s.top, rng, pyside.MODES[k % len(pyside.MODES)]) for k in range(n_values)]
-        cases.append((s, vals, f"gen#{i}"))
+        cases.append((s, vals, f"gen#{i}{tag}"))
     return cases
 
 
@@ -372,6 +538,7 @@ def run_json(ck: Check, prop_file: str, n_quick=(40, 4), n_thorough=(600, 8), tc
     else:
         cases.extend(known_class_stream(rng))
         cases.extend(width_stream(rng))
+        cases.extend(shape_stream(rng))
     n_fixed = len(cases)
     if not ck.replay_file:
         cases.extend(gen_cases(ck, ns, nv))
@@ -441,6 +608,8 @@ def run_json(ck: Check, prop_file: str, n_quick=(40, 4), n_thorough=(600, 8), tc
             distinct.add((s.texts[s.main], json.dumps(sg.value_to_json(s.top, v), sort_keys=True)))
             # the observed texts; equal texts share one literal (less for Coq to elaborate)
             cf = (rr.get("c_fill") or {}).get("ok")
+            if not printable(cf):
+                cf = None
             shared = coq_string(cf) if cf is not None else '""'
 
             def same(o):
@@ -530,8 +699,12 @@ def run_json(ck: Check, prop_file: str, n_quick=(40, 4), n_thorough=(600, 8), tc
     cov["distinct_nontrivial"] = len([1 for (txt, val) in distinct if len(val) > 8])
     cov["rule"] = ("schemas: (a) corpus, (b) hand-built streams inside/near the known-finding classes, (c) the width "
                    "stream (every width 1..64 as uint / int / enum, direct field and array element, values "
-                   "min/max/all-ones(-1)/zero/random), (d) tools/schema_gen.py (nesting, aliases, enums, imports, "
-                   "extensible markers, permuted field numbers); a case is (main schema text, value tree) and is run "
+                   "min/max/all-ones(-1)/zero/random), (d) the shape stream (identifiers of 39..80 characters as field / "
+                   "message / enum / alias names at every nesting position; zero-bit wrapper messages at depth 2..4 as "
+                   "field, array element, alias target and top-level message, extensible and not; arrays of arrays of "
+                   "messages), (e) tools/schema_gen.py (nesting, aliases, enums, imports, extensible markers, permuted "
+                   "field numbers), every fifth schema with half of its names lengthened to 40..80 characters and "
+                   "every fifth with zero-bit wrappers added to its top message; a case is (main schema text, value tree) and is run "
                    "through Python to_dict/to_json/to_json(compact)/encode and C fill->Json, Decode->Json; distinct "
                    "= distinct pairs, non-trivial = value tree with at least one field")
     cov["tie"] = {**cov.get("tie", {}), "schemas": len(cases), "corpus": n_corpus, "codes": counts,
